@@ -159,7 +159,7 @@ fn chunks_typed<F: WF, W: WindowFn<f64, Output = f64>>(c: &ChunkCase, hann: bool
                     let p = i as f64 / (c.bin - 1) as f64;
                     let w = if hann { hann_ref(p) } else { 1.0 };
                     // the last window position may have wrapped to phase 0: same value for both windows
-                    got[i].close(frames[k * c.hop + i], w).map_err(|e| format!("chunk {} frame {} (source frame {}): {}", k, i, k * c.hop + i, e))?;
+                    got[i].close(frames[k.checked_mul(c.hop).and_then(|x| x.checked_add(i)).ok_or("harness: index overflow")?], w).map_err(|e| format!("chunk {} frame {}: {}", k, i, e))?;
                 }
                 k += 1;
             }
@@ -170,6 +170,34 @@ fn chunks_typed<F: WF, W: WindowFn<f64, Output = f64>>(c: &ChunkCase, hann: bool
     for _ in 0..3 {
         ensure!(it.next().is_none(), "windower yielded a chunk after returning None");
     }
+    // positional use of the iterator: nth / skip / step_by must see the same chunk schedule
+    let first_frame_ok = |chunk: Option<dasp_signal::window::Windowed<dasp_signal::FromIterator<core::iter::Cloned<core::slice::Iter<F>>>, W>>, j: usize, how: &str| -> CheckResult {
+        match chunk {
+            Some(ch) => {
+                ensure!(j < expected, "{} yields a chunk at position {} but only {} exist (L = {}, bin = {}, hop = {})", how, j, expected, c.l, c.bin, c.hop);
+                let got: Vec<F> = ch.take(c.bin).collect();
+                for i in 0..c.bin {
+                    let p = i as f64 / (c.bin - 1) as f64;
+                    let w = if hann { hann_ref(p) } else { 1.0 };
+                    got[i].close(frames[j * c.hop + i], w).map_err(|e| format!("{} chunk {} frame {}: {}", how, j, i, e))?;
+                }
+                Ok(())
+            }
+            None => {
+                ensure!(j >= expected, "{} yields no chunk at position {} although {} exist (L = {}, bin = {}, hop = {})", how, j, expected, c.l, c.bin, c.hop);
+                Ok(())
+            }
+        }
+    };
+    for j in [0usize, 1, 2, expected.saturating_sub(1), expected, expected + 1] {
+        let mut w: Windower<F, W> = Windower::new(&frames[..], c.bin, c.hop);
+        first_frame_ok(w.nth(j), j, "nth")?;
+        let w: Windower<F, W> = Windower::new(&frames[..], c.bin, c.hop);
+        first_frame_ok(w.skip(j).next(), j, "skip(k).next()")?;
+    }
+    let w: Windower<F, W> = Windower::new(&frames[..], c.bin, c.hop);
+    let stepped = w.step_by(2).take(expected + 3).count();
+    ensure!(stepped == (expected + 1) / 2, "step_by(2) yields {} chunks, expected {} of {}", stepped, (expected + 1) / 2, expected);
     Ok(())
 }
 
@@ -179,6 +207,7 @@ pub fn check_chunks(c: &ChunkCase, st: &mut Stats) -> CheckResult {
     st.class_if(c.l < c.bin, "L < bin");
     st.class_if(c.l == c.bin, "L == bin");
     st.class_if(c.hop >= c.bin, "hop >= bin");
+    st.class_if(c.hop > usize::MAX / 2, "hop near usize::MAX");
     st.class_if(c.l >= c.bin && (c.l - c.bin) % c.hop != 0, "(L - bin) not a multiple of hop");
     match (c.ft, c.hann) {
         (FT::F64, true) => chunks_typed::<f64, Hann>(c, true),
@@ -198,7 +227,7 @@ pub fn run(ctx: &mut Ctx) {
     );
     ctx.assume("reference for the Hann shape is sin^2(pi p) (an identity of 0.5*(1-cos 2 pi p) evaluated through a different libm function); tolerances 1e-12 (f64), 2e-7 (f32), 1e-9*n for the n-point window, +-1 LSB for integer frames");
     ctx.assume("size_hint() is taken before EVERY next(): lower <= remaining <= upper (the Iterator contract; nothing stronger is demanded)");
-    for c in ["L < bin", "L == bin", "hop >= bin", "(L - bin) not a multiple of hop"] {
+    for c in ["L < bin", "L == bin", "hop >= bin", "(L - bin) not a multiple of hop", "hop near usize::MAX"] {
         ctx.require_class(c);
     }
     let mut cases = Vec::new();
@@ -223,6 +252,16 @@ pub fn run(ctx: &mut Ctx) {
                     for ft in [FT::F64, FT::F32x2, FT::I16] {
                         cases.push(ChunkCase { l, bin, hop, hann, ft });
                     }
+                }
+            }
+        }
+    }
+    // hops at the top of the usize range (every h >= 1 is in the domain)
+    for l in [0usize, 1, 2, 3, 8, 9] {
+        for bin in [2usize, 3, 8] {
+            for hop in [usize::MAX, usize::MAX - 1, usize::MAX - bin, usize::MAX - bin + 1, usize::MAX / 2 + 1, 1usize << 40] {
+                for ft in [FT::F64, FT::I16] {
+                    cases.push(ChunkCase { l, bin, hop, hann: l % 2 == 0, ft });
                 }
             }
         }
